@@ -323,7 +323,8 @@ pub enum EFs {
     Unit,
     /// (is `pub`, field name, type text)
     Named(Vec<(bool, String, String)>),
-    Tuple(Vec<String>),
+    /// (is `pub`, type text)
+    Tuple(Vec<(bool, String)>),
 }
 
 #[derive(Clone, Debug, PartialEq, Eq)]
@@ -350,6 +351,13 @@ fn field_lines<'a>(lines: &[&'a str], i: &mut usize, indent: &str, closer: &str)
         let Some(body) = l.strip_prefix(inner.as_str()) else { return err(format!("unexpected line in fieldset: `{l}`")) };
         let Some(body) = body.strip_suffix(',') else { return err(format!("field without trailing comma: `{l}`")) };
         v.push(body);
+    }
+}
+
+fn tuple_field(f: &str) -> (bool, String) {
+    match f.strip_prefix("pub ") {
+        Some(r) => (true, r.to_string()),
+        None => (false, f.to_string()),
     }
 }
 
@@ -401,7 +409,7 @@ pub fn read_types(text: &str) -> Result<Vec<EType>, String> {
             } else if let Some(n) = r.strip_suffix(" {") {
                 (n.to_string(), named_fields(field_lines(&lines, &mut i, "", "}")?)?)
             } else if let Some(n) = r.strip_suffix('(') {
-                (n.to_string(), EFs::Tuple(field_lines(&lines, &mut i, "", ");")?.into_iter().map(|s| s.to_string()).collect()))
+                (n.to_string(), EFs::Tuple(field_lines(&lines, &mut i, "", ");")?.into_iter().map(tuple_field).collect()))
             } else {
                 return err(format!("unrecognised struct definition line `{l}`"));
             };
@@ -423,12 +431,12 @@ pub fn read_types(text: &str) -> Result<Vec<EType>, String> {
                 if let Some(n) = body.strip_suffix(" {") {
                     variants.push((n.to_string(), named_fields(field_lines(&lines, &mut i, "    ", "},")?)?));
                 } else if let Some(n) = body.strip_suffix('(') {
-                    variants.push((n.to_string(), EFs::Tuple(field_lines(&lines, &mut i, "    ", "),")?.into_iter().map(|s| s.to_string()).collect())));
+                    variants.push((n.to_string(), EFs::Tuple(field_lines(&lines, &mut i, "    ", "),")?.into_iter().map(tuple_field).collect())));
                 } else if let Some(n) = body.strip_suffix(',') {
                     // `Name,` (unit) or the terminal enum's `Name(TYPE),`
                     if let Some(p) = n.find('(') {
                         let Some(inner) = n[p + 1..].strip_suffix(')') else { return err(format!("bad variant line `{vl}`")) };
-                        variants.push((n[..p].to_string(), EFs::Tuple(vec![inner.to_string()])));
+                        variants.push((n[..p].to_string(), EFs::Tuple(vec![(false, inner.to_string())])));
                     } else {
                         variants.push((n.to_string(), EFs::Unit));
                     }
